@@ -244,6 +244,8 @@ void DataTable::setRowNames(const vector<string>& rowNames)
 
 void DataTable::setRowName(size_t rowId, const string& rowName)
 {
+  if (rowNames_.size() == 0)
+    throw NoTableRowNamesException("DataTable::setRowName(size_t, const string&).");
   if (VectorTools::contains(rowNames_, rowName))
   {
     throw DuplicatedTableRowNameException("DataTable::setRowName(...). New row name " + rowName + " already exists");
